@@ -125,6 +125,49 @@ pub fn run(rng: &mut Rng, n: usize, rep: &mut Report) {
                 }
             }
         }
+        // the cache is re-propagated after the global pause state moved while the flag stayed set:
+        //  (a) pause, propagate, extend the pause 600 s later, propagate again — closed until t0 + 600 + 1800... i.e. the
+        //      extended start (t0 + 1800) + 1800 = t0 + 3600;
+        //  (b) pause, propagate, let it lapse without unpausing, pause afresh a day later, propagate — closed for 1800 s
+        //      from the second pause.
+        for (timing, variant, off, expect_paused) in [
+            ("re-propagated-extension+1201", 0u8, 1201i64, true),
+            ("re-propagated-extension+2999", 0, 2999, true),
+            ("re-propagated-extension+3000", 0, 3000, false),
+            ("fresh-pause-after-lapse+5", 1, 5, true),
+            ("fresh-pause-after-lapse+1799", 1, 1799, true),
+            ("fresh-pause-after-lapse+1800", 1, 1800, false),
+        ] {
+            for (name, act) in actions() {
+                if name == "collect_fees" {
+                    continue;
+                }
+                let mut s = clone_scen(&base);
+                let mut scratch = Report::default();
+                let mut ok = s.w.exec(&ix::panic_pause(s.fee_admin)).is_ok();
+                ok &= s.w.exec(&ix::propagate_fee_state(s.group)).is_ok();
+                if variant == 0 {
+                    s.w.advance(600);
+                } else {
+                    s.w.advance(90_000);
+                }
+                ok &= s.w.exec(&ix::panic_pause(s.fee_admin)).is_ok();
+                ok &= s.w.exec(&ix::propagate_fee_state(s.group)).is_ok();
+                if !ok {
+                    rep.fail(format!("setup of the re-propagated pause failed ({})", timing));
+                    continue;
+                }
+                s.w.advance(off);
+                let r = s.step(&act, &mut scratch);
+                cells += 1;
+                rep.bump("cases");
+                rep.bump(&format!("pause_{}", timing));
+                let code = match &r { Some(Err(e)) => e.code(), _ => None };
+                if expect_paused != (code == Some(PROTOCOL_PAUSED)) {
+                    rep.fail(format!("{} after the pause state was re-propagated ({}): expected paused={}, got {:?}", name, timing, expect_paused, r.as_ref().map(|x| x.as_ref().map_err(|e| e.to_string()))));
+                }
+            }
+        }
         for (timing, offset, propagate_after_pause, expect_paused) in [
             ("not-paused", None, false, false),
             ("paused+0", Some(0i64), true, true),
@@ -262,5 +305,6 @@ fn clone_scen(s: &Scen) -> Scen {
         dust_a: s.dust_a.clone(),
         dust_l: s.dust_l.clone(),
         hist: vec![],
+        opened_tag: s.opened_tag.clone(),
     }
 }
